@@ -9,6 +9,7 @@ Import ListNotations.
 From Yaqs Require Import Model.ChainFSM Proofs.ChainFSMP.
 From Yaqs Require Model.Transmon Proofs.TransmonP.
 From Yaqs Require Import Model.PauliFSM Proofs.PauliFSMP Model.CircuitLib Proofs.CircuitLibP Model.HamTerms Proofs.HamTermsP.
+From Yaqs Require LinAlg.Strang.
 
 Theorem C07_fsm_denotes_terms : forall L ts, (1 <= L)%nat -> (forall t, In t ts -> length (snd t) = L) -> denote (build L ts) = ts.
 Proof. exact fsm_denotes_terms. Qed.
@@ -68,3 +69,23 @@ Example C07_example :
              (3#1, [PI;PI;PX;PI]); (3#1, [PI;PI;PI;PX]); (5#1, [PZ;PZ;PI;PI])]%Q in
   denote (build 4 ts) = ts /\ bond_dims (build 4 ts) = [7; 5; 3]%nat.
 Proof. vm_compute. split; reflexivity. Qed.
+
+(* a plain product of two exponentials is first-order accurate; its doubled second-order defect is the commutator *)
+Theorem C07_sequential_splitting_is_first_order :
+  forall (R : Type) (ring0 ring1 : R) (add mul sub : R -> R -> R) (opp : R -> R) (req : R -> R -> Prop)
+         (Rops : @Ncring.Ring_ops R ring0 ring1 add mul sub opp req), @Ncring.Ring R ring0 ring1 add mul sub opp req Rops ->
+  forall A B : R,
+  req (Strang.t0 (Strang.tmul (Strang.texp A) (Strang.texp B))) (Strang.t0 (Strang.texp (add A B))) /\
+  req (Strang.t1 (Strang.tmul (Strang.texp A) (Strang.texp B))) (Strang.t1 (Strang.texp (add A B))) /\
+  req (sub (Strang.t2 (Strang.tmul (Strang.texp A) (Strang.texp B))) (Strang.t2 (Strang.texp (add A B)))) (sub (mul A B) (mul B A)).
+Proof. exact @Strang.lie. Qed.
+Print Assumptions C07_sequential_splitting_is_first_order.
+
+(* a half step, a full step, a half step is exact through second order in the step (LinAlg/Strang.v: series truncated after dt^2 over
+   any ring, the last entry of a triple being twice the second-order coefficient; texp X = (1, X, X*X)) *)
+Theorem C07_symmetric_splitting_is_second_order :
+  forall (R : Type) (ring0 ring1 : R) (add mul sub : R -> R -> R) (opp : R -> R) (req : R -> R -> Prop)
+         (Rops : @Ncring.Ring_ops R ring0 ring1 add mul sub opp req), @Ncring.Ring R ring0 ring1 add mul sub opp req Rops ->
+  forall C B : R, Strang.teq (Strang.tmul (Strang.tmul (Strang.texp C) (Strang.texp B)) (Strang.texp C)) (Strang.texp (add (add C C) B)).
+Proof. exact @Strang.strang. Qed.
+Print Assumptions C07_symmetric_splitting_is_second_order.
